@@ -98,8 +98,9 @@ Definition fstep_goto (s : fstate) (r : frow) (tgts : list I) : option fstate :=
                       end
                     end) (combine (fr_edges r) tgts') (Some s).
 
-Definition merges (s : fstate) (r : frow) (acts : list sexp) : option nat :=
-  match fr_name r, acts with
+(* (only the actions of an ACTION row are merged into a node of the same name: RowSem.merge_actions) *)
+Definition merges (s : fstate) (r : frow) (cls : eclass) (acts : list sexp) : option nat :=
+  match fr_name r, merge_actions cls acts with
   | _ :: _, _ :: _ => alookup (fs_names s) (fr_name r)
   | _, _ => None
   end.
@@ -109,7 +110,7 @@ Definition fstep (s : fstate) (r : frow) : option fstate :=
   | FKLoose => fapply_all s (fr_edges r) DNone
   | FKGoto tgts => fstep_goto s r tgts
   | FKNode cls acts dec0 =>
-    match merges s r acts with
+    match merges s r cls acts with
     | Some k => fstep_merge s r k acts
     | None => fstep_new s r cls acts dec0
     end
